@@ -503,6 +503,13 @@ func judge(c *harness.C, name, class string, got []comm.InMsg, okID uint16, okDo
 func gen(c *harness.C) []harness.Case {
 	c.Note("rule", "real net.ServiceConnections over in-memory TLS 1.3 in a bubble; 3 registered identities in 2 domains + 1 unregistered identity with a valid chain; from a valid handshake every field is altered (each byte of binding and signature, 16 positions of the identity, domain and timestamp values; with and without re-signing), substituted (other party's identity/domain/key, other connection's binding, whole handshake replayed), emptied; P-384/RSA/Ed25519 identity keys; non-PEM / trailing data; bytes moved across the Domain/Identity boundary and re-signed; every truncation length and wrong length prefixes; each interleaved with an honest connection; distinct_nontrivial = distinct variants")
 	var cases []harness.Case
+	if os.Getenv("VERIF_FAMILY") == "stall" {
+		// the same family decides the handshake part of C10 (no hang, service continues)
+		if p := os.Getenv("VERIF_PROP"); p != "" {
+			c.Property = p
+		}
+		return stallCases(c)
+	}
 	vs := variants(c.Thorough())
 	byName := map[string]variant{}
 	for _, v := range vs {
@@ -521,6 +528,7 @@ func gen(c *harness.C) []harness.Case {
 		cases = append(cases, harness.Case{ID: "variant/" + v.name, Run: func(c *harness.C) { one(c, v, -1) }})
 	}
 	cases = append(cases, libraryReplayCase())
+	cases = append(cases, stallCases(c)...)
 	// truncations of the valid handshake frame: every length
 	valid := byName["valid"]
 	step := 1
@@ -564,6 +572,146 @@ func gen(c *harness.C) []harness.Case {
 		}
 		c.Outcome("catalogue")
 	}})
+	return cases
+}
+
+// stallRun: a connection that stalls during connection set-up (says nothing, stops in the middle of
+// the TLS or of the library handshake) is kept open; afterwards a NEW honest peer connects and an
+// honest peer connected earlier keeps sending. Service to both must continue.
+func stallRun(c *harness.C, kind string, n int) (oldOK, newOK bool, total int) {
+	rec := c.Bubble(func() {
+		e := newEnv()
+		hc, hb := e.connect("honest")
+		hc.Write(netlib.FrameHandshake(validHandshake(e.ids[1], hb).Bytes()))
+		hc.Write(netlib.Frame(2, topic32("honest-topic"), []byte("old-1")))
+		synctest.Wait()
+		var keep []interface{ Close() error }
+		go func() {
+			switch kind {
+			case "tcp-silent":
+				if raw, err := e.lis.DialRaw("stall"); err == nil {
+					keep = append(keep, raw)
+				}
+			case "tls-partial-record":
+				if raw, err := e.lis.DialRaw("stall"); err == nil {
+					keep = append(keep, raw)
+					// the beginning of a TLS record, then silence
+					raw.Write([]byte{0x16, 0x03, 0x01, 0x02, 0x00, 0x01})
+				}
+			case "tls-silent":
+				ac, _ := e.connect("stall")
+				keep = append(keep, ac)
+			case "partial-handshake":
+				ac, ab := e.connect("stall")
+				keep = append(keep, ac)
+				wire := netlib.FrameHandshake(validHandshake(e.ids[0], ab).Bytes())
+				total = len(wire)
+				if n < len(wire) {
+					ac.Write(wire[:n])
+				} else {
+					ac.Write(wire)
+				}
+			case "huge-length-prefix":
+				ac, _ := e.connect("stall")
+				keep = append(keep, ac)
+				ac.Write([]byte{0xff, 0xff})
+			}
+		}()
+		time.Sleep(time.Second)
+		synctest.Wait()
+		go func() {
+			nc, nb := e.connect("new")
+			nc.Write(netlib.FrameHandshake(validHandshake(e.ids[2], nb).Bytes()))
+			nc.Write(netlib.Frame(2, topic32("new-topic"), []byte("new-1")))
+		}()
+		hc.Write(netlib.Frame(1, topic32("honest-topic"), []byte("old-2")))
+		time.Sleep(10 * time.Second)
+		synctest.Wait()
+		olds := 0
+		for _, m := range e.col.Snapshot() {
+			switch string(m.Data) {
+			case "old-1", "old-2":
+				if m.From == 2 && m.Domain == "dom1" {
+					olds++
+				}
+			case "new-1":
+				if m.From == 3 && m.Domain == "dom2" {
+					newOK = true
+				}
+			}
+		}
+		oldOK = olds == 2
+		for _, k := range keep {
+			k.Close()
+		}
+		hc.Close()
+		e.stop()
+		e.lis.Close()
+		time.Sleep(time.Second)
+	})
+	if rec != nil && !harness.IsLeakPanic(rec) {
+		panic(rec)
+	}
+	return
+}
+
+type stallReplay struct {
+	Stall string `json:"stall"`
+	N     int    `json:"n"`
+}
+
+func stallOne(c *harness.C, kind string, n int) int {
+	c.Exec(fmt.Sprintf("[stall] %s %d", kind, n))
+	oldOK, newOK, total := stallRun(c, kind, n)
+	c.Add("executions", 1)
+	c.Add("evaluations", 1)
+	rp := stallReplay{kind, n}
+	pfx := strings.ToLower(c.Property)
+	if !newOK {
+		c.Violation("service-to-other-peers-continues", pfx+"-new-peer-starved-by-stalled-connection:"+kind, fmt.Sprintf("a connection that stalls during set-up (%s, %d bytes of the handshake) is open; a new honest peer then connected, authenticated and sent a message, which did not arrive within 10 virtual seconds", kind, n), rp)
+	}
+	if !oldOK {
+		c.Violation("service-to-other-peers-continues", pfx+"-connected-peer-starved-by-stalled-connection:"+kind, fmt.Sprintf("a connection that stalls during set-up (%s, %d bytes of the handshake) is open; the messages of an honest peer connected earlier did not all arrive", kind, n), rp)
+	}
+	c.Outcome(fmt.Sprintf("stall|%s|%d|%v|%v", kind, n, oldOK, newOK))
+	return total
+}
+
+func stallCases(c *harness.C) []harness.Case {
+	var cases []harness.Case
+	if r := c.Replay; r != nil {
+		var rp stallReplay
+		if json.Unmarshal(r, &rp) == nil && rp.Stall != "" {
+			return []harness.Case{{ID: os.Getenv("VERIF_ONLY"), Run: func(c *harness.C) { stallOne(c, rp.Stall, rp.N) }}}
+		}
+	}
+	for _, k := range []string{"tcp-silent", "tls-partial-record", "tls-silent", "huge-length-prefix"} {
+		k := k
+		cases = append(cases, harness.Case{ID: "stall/" + k, Run: func(c *harness.C) { stallOne(c, k, 0) }})
+	}
+	step := 40
+	if c.Thorough() {
+		step = 1
+	}
+	const shards = 8
+	for sh := 0; sh < shards; sh++ {
+		sh := sh
+		cases = append(cases, harness.Case{ID: fmt.Sprintf("stall/partial-handshake/shard%d", sh), Run: func(c *harness.C) {
+			total := 1200
+			for i, n := 0, 0; n < total; i, n = i+1, n+step {
+				if i%shards != sh {
+					continue
+				}
+				if c.Expired() {
+					c.Cap("time")
+					return
+				}
+				if t := stallOne(c, "partial-handshake", n); t > 0 && t < total {
+					total = t
+				}
+			}
+		}})
+	}
 	return cases
 }
 
